@@ -292,6 +292,10 @@ func (ex *Exec) eval1(e *Expr, env *Env) Val {
 		}
 		return ex.selectField(x, e.Name)
 	case EUn:
+		if e.Op == "&" {
+			// address of a designated location (x.f, s[i], *p, a local)
+			return ex.evalAddr(e.Args[0], env)
+		}
 		x := ex.eval1(e.Args[0], env)
 		switch e.Op {
 		case "!":
@@ -836,6 +840,13 @@ func (ex *Exec) loadGlobal(gp GlobalPtr) Val {
 			ex.axioms = append(ex.axioms, ts.Lt(ts.Int(0), iv.Tag, true))
 			for _, o := range ex.errGlobals {
 				ex.axioms = append(ex.axioms, ts.Not(ts.And(ts.Eq(iv.Tag, o.Tag), ts.Eq(iv.Val, o.Val))))
+			}
+			if ex.prog.ErrorsNew[gp.Name] {
+				// errors.New values wrap nothing: their chain contains no kafka.Error (what errors.As decides)
+				if sp := ex.prog.Specs["iskafka"]; sp != nil || ex.prog.Specs["spec.iskafka"] != nil {
+					ex.axioms = append(ex.axioms, ts.Not(ts.App("spec|iskafka", SBool, iv.Tag, iv.Val)))
+					ex.note("package-level errors created with errors.New wrap nothing (not broker errors)")
+				}
 			}
 			ex.errGlobals = append(ex.errGlobals, iv)
 			ex.errGlobalsN = append(ex.errGlobalsN, gp.Name)
